@@ -12,6 +12,7 @@ import (
 	"encoding/json"
 	"fmt"
 	"math/rand"
+	"net"
 	"os"
 	"path/filepath"
 	"runtime"
@@ -295,4 +296,25 @@ func vAwait(done <-chan struct{}, d time.Duration) bool {
 	default:
 		return false
 	}
+}
+
+// vDialer is sarama's default dialer plus SO_LINGER 0: client connections are reset on Close
+// instead of lingering in TIME_WAIT, so that tens of thousands of short scenarios cannot exhaust
+// the ephemeral ports.
+type vDialer struct{ timeout time.Duration }
+
+func (d vDialer) Dial(network, addr string) (net.Conn, error) {
+	c, err := (&net.Dialer{Timeout: d.timeout}).Dial(network, addr)
+	if err != nil {
+		return c, err
+	}
+	if tc, ok := c.(*net.TCPConn); ok {
+		_ = tc.SetLinger(0)
+	}
+	return c, nil
+}
+
+func vUseDialer(config *Config) {
+	config.Net.Proxy.Enable = true
+	config.Net.Proxy.Dialer = vDialer{timeout: config.Net.DialTimeout}
 }
